@@ -781,9 +781,25 @@ def rejecting(deferred=True, times=1, kind="fifo", capacity=2, pending=0, existi
   """
   c = Compiler(sc, 0, "caller")
   post = c.get_attr(SP(obj), "post_lifo" if kind == "lifo" else "post_fifo")
-  c.call_function(SF(node=driver(src, "caller"), closure={"POST": post, "accepted": mark("g.accepted"), "rejected": mark("g.rejected")},
-                     qualname="scenario.caller", globs={}),
-                  [SP(obj), ev_new, SK(1, 1.0), SK(times, times), SK(1 if deferred else 0, deferred)], {})
+  if canceller == "signal":
+    # the caller keeps the id its post returned, waits until the other thread's cancel_events(signal) has returned, and cancels by id
+    handoff = sc.add(M.MEvent("handoff", 0))
+    sc.ghost["g.cancel_by_id_returned"] = 0
+    src += """
+  def caller_then_cancel(ao, e, period, times, deferred, handoff):
+    uid = POST(e, period=period, times=times, deferred=deferred)
+    accepted()
+    handoff.wait()
+    ao.cancel_event(uid)
+    cancelled_by_id()
+  """
+    c.call_function(SF(node=driver(src, "caller_then_cancel"), closure={"POST": post, "accepted": mark("g.accepted"), "cancelled_by_id": mark("g.cancel_by_id_returned")},
+                       qualname="scenario.caller_then_cancel", globs={}),
+                    [SP(obj), ev_new, SK(1, 1.0), SK(times, times), SK(1 if deferred else 0, deferred), SO(handoff)], {})
+  else:
+    c.call_function(SF(node=driver(src, "caller"), closure={"POST": post, "accepted": mark("g.accepted"), "rejected": mark("g.rejected")},
+                       qualname="scenario.caller", globs={}),
+                    [SP(obj), ev_new, SK(1, 1.0), SK(times, times), SK(1 if deferred else 0, deferred)], {})
   sc.programs.append(c.finish())
   c = Compiler(sc, 1, "consumer")
   c.call_function(SF(node=driver(src, "consumer_main"), closure={}, qualname="scenario.consumer_main", globs={}),
@@ -801,10 +817,19 @@ def rejecting(deferred=True, times=1, kind="fifo", capacity=2, pending=0, existi
   def do_cancel(ao, uuid):
     ao.cancel_event(uuid)
     cancelled()
+
+  def do_cancel_signal(ao, e, handoff):
+    ao.cancel_events(e)
+    cancelled()
+    handoff.set()
   """
     sc.ghost["g.cancel_returned"] = 0
-    c.call_function(SF(node=driver(csrc, "do_cancel"), closure={"cancelled": mark("g.cancel_returned")}, qualname="scenario.do_cancel", globs={}),
-                    [SP(obj), SK(20, 20) if canceller == "old" else SK(27, 27)], {})
+    if canceller == "signal":
+      c.call_function(SF(node=driver(csrc, "do_cancel_signal"), closure={"cancelled": mark("g.cancel_returned")}, qualname="scenario.do_cancel_signal", globs={}),
+                      [SP(obj), ev_new, SO(handoff)], {})
+    else:
+      c.call_function(SF(node=driver(csrc, "do_cancel"), closure={"cancelled": mark("g.cancel_returned")}, qualname="scenario.do_cancel", globs={}),
+                      [SP(obj), SK(20, 20) if canceller == "old" else SK(27, 27)], {})
     sc.programs.append(c.finish())
   sc.info = {"canceller": canceller, "capacity": capacity, "existing": existing, "deferred": deferred, "times": times, "kind": kind, "pending": pending, "old_flags": [f.name for f in old_flags],
              "thread_created_on_translated_path": bool(spawned_programs)}
